@@ -20,6 +20,14 @@ PROPS = {
         "level_note": "the writer's thresholds in ZipWriter::write/finalize and get_directory_counts (units U7/U8) are not under contract yet: listed as undecided",
         "undecided": ["write() refusing >4GiB without large_file and poisoning the writer; finalize() ZIP64 end-record decision (unit U7)", "get_directory_counts: ZIP64 locator probe and archive offset (unit U8)"],
     },
+    "C03": {
+        "units": ["U4_end_records", "U6_central_parser", "U8_entry_readers"],
+        "kani": ["types"],
+        "technique": "Verus contracts on the end-record search/parsers against APPNOTE spec functions; Kani complete harness for the attribute-to-mode table",
+        "level_text": "Deductive proof over all byte strings and all I/O outcomes: the end-of-central-directory search returns the last signature occurrence whose record fits (so trailing garbage is tolerated), every field equals the APPNOTE 4.3.16/4.3.15/4.3.14 decode of the bytes at that offset, the ZIP64 forward search returns the first record at or after the nominal offset, and an error is returned only on a device fault or when no well-formed record exists in the window. unix_mode() is proved for all 2^32 attribute words x 256 systems with Kani.",
+        "level_note": "I/O model of contracts/shims/io.rs; directory walk, name lookup and data offsets (unit U8) are not under contract yet and are listed as undecided; Vec<u8>::from_cp437 is an assumed contract in Verus (iterator adapters) decided by the Kani cp437 group; derived PartialEq assumed structural; decoders assumed",
+        "undecided": ["directory walk, names_map last-wins, by_name/by_index not-found, find_content data offset (units U6/U8)", "entry content equals original bytes (decoders assumed, CRC layer = C04)"],
+    },
     "C04": {
         "units": ["U9_crc", "U8_entry_readers"],
         "kani": [],
